@@ -23,8 +23,8 @@ Judged(k) == LET e == RunSeq(S0, Trace[k].b) IN IF Accepts(e) /\ HasDoc(e) THEN 
 CheckCase == /\ c <= N
              /\ c' = c + 1 /\ UNCHANGED <<st, hist>>
              /\ LET j == Judge(c) IN
-                /\ (j = <<>> \/ Len(TLCGet(1)) >= MaxBad \/ TLCSet(1, TLCGet(1) \o j))
-                /\ (j = <<>> \/ TLCSet(3, TLCGet(3) + Len(j)))
+                /\ (IF j = <<>> \/ Len(TLCGet(1)) >= MaxBad THEN TRUE ELSE TLCSet(1, TLCGet(1) \o j))
+                /\ (IF j = <<>> THEN TRUE ELSE TLCSet(3, TLCGet(3) + Len(j)))
              /\ TLCSet(4, TLCGet(4) + Judged(c))
              /\ TLCSet(2, c)
 TraceSpec == TraceInit /\ [][CheckCase]_tvars
